@@ -103,18 +103,48 @@ class WriterExtractor:
                 raise AnalysisError(f"default tag of ASN1Writer.{name} not found")
             self.default_tags[name] = tag
 
-    def _default_in(self, fi: Optional[FuncInfo]) -> Optional[TagConst]:
-        if fi is None:
+    def _default_in(self, fi: Optional[FuncInfo], tagname: str = "tag", env: Optional[Dict[str, Any]] = None, depth: int = 0) -> Optional[TagConst]:
+        """The constant a missing tag is replaced with: `if not tag: tag = <const>` in fi, or in the helper fi hands its
+        tag parameter to (the helper's other arguments folded at this call site)."""
+        if fi is None or depth > 3:
             return None
         for n in ast.walk(fi.node):
-            if isinstance(n, ast.If) and isinstance(n.test, ast.UnaryOp) and isinstance(n.test.op, ast.Not) and norm(n.test.operand) == "tag":
+            if isinstance(n, ast.If) and isinstance(n.test, ast.UnaryOp) and isinstance(n.test.op, ast.Not) and norm(n.test.operand) == tagname:
                 for s in n.body:
-                    if isinstance(s, ast.Assign) and norm(s.targets[0]) == "tag":
+                    if isinstance(s, ast.Assign) and norm(s.targets[0]) == tagname:
                         try:
-                            v = self.folder.fold(s.value, ASN1)
+                            v = self.folder.fold(s.value, ASN1, env)
                         except Unfoldable:
                             return None
                         return v if isinstance(v, TagConst) else None
+        for n in ast.walk(fi.node):
+            if not isinstance(n, ast.Call):
+                continue
+            callee = None
+            if isinstance(n.func, ast.Name):
+                q = self.m.resolve_name(fi.module, n.func.id)
+                callee = self.m.functions.get(q) if q else None
+            elif isinstance(n.func, ast.Attribute) and isinstance(n.func.value, ast.Name) and n.func.value.id in ("self", "cls") and fi.cls:
+                callee = self.m.find_method(fi.cls, n.func.attr)
+            if callee is None or callee is fi or isinstance(callee.node, ast.Lambda):
+                continue
+            ps = callee.params()
+            if callee.cls and not callee.is_staticmethod:
+                ps = ps[1:]
+            pairs = [(ps[i], a) for i, a in enumerate(n.args) if i < len(ps)] + [(k.arg, k.value) for k in n.keywords if k.arg in ps]
+            tparam = next((p_ for p_, a in pairs if isinstance(a, ast.Name) and a.id == tagname), None)
+            if tparam is None:
+                continue
+            env2: Dict[str, Any] = {}
+            for p_, a in pairs:
+                if p_ != tparam:
+                    try:
+                        env2[p_] = self.folder.fold(a, fi.module, env)
+                    except Unfoldable:
+                        pass
+            v = self._default_in(callee, tparam, env2, depth + 1)
+            if v is not None:
+                return v
         return None
 
     # ------------------------------------------------------------------ entry
